@@ -723,6 +723,9 @@ def chol_oracle(spec):
     cond = float(np.linalg.cond(corr))
     if not cond <= 1e8:
         raise Skip('ill-conditioned correlation matrix')
+    if float(np.linalg.eigvalsh((corr + corr.T) / 2).min()) <= 0.0:
+        # positive semi-definiteness is only promised for identical configuration sets; a Cholesky factor needs it
+        raise Skip('correlation matrix is not positive definite')
     X = np.asarray(pe.obs.invert_corr_cov_cholesky(corr.copy(), np.diag(1.0 / e)))
     require(X.shape == (n, n) and bool(np.all(np.isfinite(X))), 'result has shape %r / non-finite entries' % (X.shape,))
     require(np.all(np.triu(X, 1) == 0.0), 'result is not lower triangular', X.tolist())
